@@ -41,7 +41,9 @@ STR_BOUNDS = [("1", "3"), ("2", "10"), ("10", "2"), ("0", str(MAXI)), (1, "3"), 
 LOOKUPS = [0, 1, 2, 3, 7, 8, 2 ** 40]
 
 # (T, S, S2): sessions are (T,S), its mirror (S,T) and (T,S2)
-POOL = [("TGT", "SND", "SND2"), ("EXCH", "FIRM", "FIRM2"), ("A", "B", "C"), ("SRV", "CLI", "CL")]
+# In EVERY seed T and S are different strings with the same numeric value (numeric-looking CompIDs are
+# legal FIX; a store that compares them numerically merges (T,S) with its mirror), S2 is alphabetic.
+POOL = [("007", "7", "SND2"), ("07", "7", "FIRM"), ("7", "007", "CLI"), ("0010", "10", "EXCH")]
 
 CL_RANGE = ("a stored message is returned unchanged by every range query that includes its number, in "
             "ascending number order and only for its own session and direction")
@@ -164,10 +166,25 @@ def m_step(state, op):
     raise ValueError(op)
 
 
-def m_key(state):
-    """Canonical dedup key of a model state (16-byte digest of the canonical form: keeps 1.6M states small)."""
+def m_key(state, pending=frozenset()):
+    """Canonical dedup key (16-byte digest): model state + `pending` (see m_pending)."""
     canon = tuple(None if s is None else (s[0], s[1], tuple(sorted(s[2]))) for s in state)
-    return hashlib.blake2b(repr(canon).encode(), digest_size=16).digest()
+    return hashlib.blake2b(repr((canon, sorted(pending))).encode(), digest_size=16).digest()
+
+
+def m_pending(pending, op, info):
+    """Refinement of the dedup key by possibly-unsaved work.  persist_msg is the operation documented to
+    commit ("Commits encoded fix message into DB"); session creations and counter settings made since the
+    last successful store are remembered (which session, which kind), so that histories such as
+    open(new session) -> duplicate store are not folded into open -> store -> duplicate store."""
+    c = info["cls"]
+    if c == "store_new":
+        return frozenset()
+    if c == "open_new":
+        return pending | {("open", op[1])}
+    if c == "set":
+        return pending | {("set", op[1])}
+    return pending
 
 
 # --------------------------------------------------------------------------- real side
@@ -318,7 +335,7 @@ def observe(real, state, op, info, full, J):
     want = {real.sids[si] for si in exist}
     J.evals += 1
     if lkeys - want:
-        J.add("load_paths|phantom_session_in_listing", CL_LOAD, {"listed": sorted(map(repr, lkeys)), "created": sorted(map(repr, want))})
+        J.add("load_paths|phantom_session_in_listing:after_%s" % info["cls"], CL_LOAD, {"listed": sorted(map(repr, lkeys)), "created": sorted(map(repr, want))})
         condemned = True
     handles = {}
     for si in exist:
@@ -353,7 +370,7 @@ def observe(real, state, op, info, full, J):
                           {"op": op, "session": (t, s), "counter": "next_" + DNAME[dn], "got": got, "expected": exp})
         lh = listing.get((t, s)) if (t, s) in lkeys else None
         if lh is None:
-            J.add("load_paths|session_missing_in_listing", CL_LOAD, {"session": (t, s), "listed": sorted(map(repr, lkeys))})
+            J.add("load_paths|session_missing_in_listing:after_%s" % info["cls"], CL_LOAD, {"session": (t, s), "after": op, "listed": sorted(map(repr, lkeys))})
             condemned = True
             continue
         J.evals += 3
@@ -684,6 +701,8 @@ def run(ctx):
     ctx.rule = ("depth %d%s; " % (depth, "" if ctx.quick else " (depth 5 over all three sessions with the full observation everywhere; depth 6 "
                 "over the mirror pair (T,S),(S,T) only, full observation where the successor model state is new, "
                 "loading paths + widest range queries + unfiltered get_all_msgs otherwise)") +
+                "dedup key = reference model state + the set of (session, kind) of session creations / counter settings "
+                "made since the last successful store (possibly unsaved work); "
                 "BFS over operation sequences {open x3 sessions (T,S),(S,T),(T,S2); list; store x sessions x 2 directions x "
                 "n in {1,2,3,7,2^40} x 2 payloads; set_seq_num x sessions x {None,1,2,3,8}^2} with the reference model state as "
                 "dedup key; every (model state, op) pair up to the depth is executed on a fresh in-memory Journaler by replaying "
@@ -693,7 +712,7 @@ def run(ctx):
                 "number that exists in another direction/session or lies below the counter, or a set that removes some and "
                 "keeps some messages")
     seen = {m_key(m_init())}
-    level = [((), m_init())]
+    level = [((), m_init(), frozenset())]
     tot = dict(tr=0, calls=0, evals=0, txn=0, nontriv=0, taint=0)
     per_level = []
     last_level = level
@@ -704,16 +723,17 @@ def run(ctx):
             level = [x for x in level if x[1][2] is None]
         items = []
         nxt = []
-        for seq, state in level:
+        for seq, state, pend in level:
             newidx = []
             for idx, op in enumerate(m_enabled(state, third)):
-                s2, _ = m_step(state, op)
-                k = m_key(s2)
+                s2, inf = m_step(state, op)
+                p2 = m_pending(pend, op, inf)
+                k = m_key(s2, p2)
                 if k not in seen:
                     seen.add(k)
                     newidx.append(idx)
                     if dpt < depth:
-                        nxt.append((seq + (op,), s2))
+                        nxt.append((seq + (op,), s2, p2))
             items.append((seq, frozenset(newidx), third))
         res = ctx.pmap(_expand, items, chunk=max(1, min(64, len(items) // (ctx.workers * 6) or 1)))
         ltr = 0
@@ -740,7 +760,7 @@ def run(ctx):
                   "set_values": [str(v) for v in SETVALS], "int_bound_grid": GRID, "string_bounds": [list(b) for b in STR_BOUNDS],
                   "lookups": LOOKUPS, "payload_variants": 2, "per_level": per_level}
     ctx.sample({"sequence": [["open", 0], ["store", 0, OUT, 1, 0], ["list"]], "meaning": "store(s, direction 1=out/0=in, n, payload variant)"})
-    for seq, _ in last_level[:: max(1, len(last_level) // 4)][:4]:
+    for seq, _, _ in last_level[:: max(1, len(last_level) // 4)][:4]:
         ctx.sample({"sequence": [list(o) for o in seq]})
     if tot["txn"]:
         ctx.notes.append("hidden state, not judged: after %d refused duplicate stores sqlite3 conn.in_transaction was True (the "
